@@ -157,6 +157,21 @@ InitDest(node, p) ==
          IN R[Len(node.kids)]
     [] OTHER -> EmptyF
 
+\* a Parse destination whose pointers are already allocated (pointees hold sentinels): Parse must
+\* reuse them, so that absent optionals and unnamed fields below stay untouched (C03)
+RECURSIVE InitDestPre(_, _)
+InitDestPre(node, p) ==
+  CASE node.k = "prim"   -> (p :> InitVal(node.ty))
+    [] node.k = "custom" -> (p :> Sentinel)
+    [] node.k = "slice"  -> (p :> -1)
+    [] node.k = "ptr"    -> (p :> 1) @@ InitDestPre(Elem(node), Append(p, "*"))
+    [] node.k = "struct" ->
+         LET R[i \in 0..Len(node.kids)] ==
+               IF i = 0 THEN (Append(p, "$extra") :> Sentinel)
+               ELSE InitDestPre(node.kids[i].node, Append(p, node.kids[i].key)) @@ R[i - 1]
+         IN R[Len(node.kids)]
+    [] OTHER -> EmptyF
+
 IsPathPrefix(p, q) == Len(p) <= Len(q) /\ SubSeq(q, 1, Len(p)) = p
 Below(p, q)    == Len(p) < Len(q) /\ SubSeq(q, 1, Len(p)) = p     \* q strictly below p
 
